@@ -371,8 +371,9 @@ func (bkt *Bucket) checkAndSet(ki *KeyInfo, v *Payload) error {
 		oldv = payload.Ver
 		if oldv > 0 && v.ValueHash == payload.ValueHash {
 			if Conf.CheckVHash {
-				if v.Ver != 0 {
+				if v.Ver != 0 && abs(v.Ver) > abs(oldv) {
 					// sync script would be here, e.g. set_raw(k, v, rev=xxx)
+					// (like any explicit revision, only accepted if larger)
 					bkt.htree.set(ki, &v.Meta, pos)
 				}
 				return nil
